@@ -1,4 +1,5 @@
 import GoMailModel.Proofs.Armed
+import GoMailModel.Generated.Locks
 /-
   C17 — Every network operation is bounded by the configured timeout (PARTIAL: time is virtual).
   In the model every point at which the client waits for the server is an event; when the server is
@@ -39,5 +40,10 @@ theorem dial_arms_first (cfg : DialCfg) (script : List Act) (caps : List Bytes) 
 
 /-- non-vacuity: a server that is silent at the greeting does produce a wait, and it is armed -/
 example : (dial {} [.stall] []).1.trace = [.connect, .deadline, .stall true, .close] := by decide
+
+/-- Waiting for a mutex has no deadline at all, so a lock that is not given back blocks the next caller
+    for good. Fact regenerated from the source (path-sensitive walk, see `C13.every_path_gives_back_the_locks_it_took`):
+    no function of client.go, client_120.go, smtp/smtp.go, smtp/smtp_ehlo.go leaves a mutex held on any path. -/
+theorem no_path_keeps_a_lock : Generated.lockFlowProblems = [] := rfl
 
 end GoMail.Props.C17
